@@ -26,7 +26,7 @@ class DataPointSampler(object):
 
         for data_idx in data_idxs:
             old_node = tree_labels[data_idx]
-            if tree.get_data_len(old_node) > 1:
+            if old_node == tree.outlier_node_name or tree.get_data_len(old_node) > 1:
                 tree = self._sample_tree(data_idx, tree, old_node)
                 tree_labels = tree.labels
 
